@@ -251,23 +251,8 @@ theorem C03_create (cls : Cls) (kvs : List (Str × Val)) (q : Pos) (cur cur' : V
     (hcreate : createIn cur (s :: steps) v = some cur') (hset : setAt (.dict cls kvs) q cur' = some t')
     (hencl : s = .idx sNew → ¬ PlainListEncloses (.dict cls kvs) q)
     (hf : fuel ≥ 4 * (q.length + 1)) :
-    setItem fuel (.dict cls kvs) (slash ++ renderPos q ++ (s :: steps).flatMap renderCStep) v = (t', .ok ()) := by
-  cases s with
-  | idx e =>
-    exact setItem_create_idx cls kvs q cur cur' e steps v t' fuel hp hget hsteps hg hcreate hset
-      (fun h => hencl (by rw [h])) hf
-  | name n =>
-    obtain ⟨kcls, nkvs, rfl⟩ : ∃ kcls nkvs, cur = .dict kcls nkvs := by
-      cases cur <;> simp [createIn] at hcreate
-      exact ⟨_, _, rfl⟩
-    exact C03_create_partial cls kvs q kcls nkvs (.name n) steps v cur' t' fuel hp hget hfirst (by intro e h; cases h)
-      hsteps hg hcreate hset hf
-  | elem n e =>
-    obtain ⟨kcls, nkvs, rfl⟩ : ∃ kcls nkvs, cur = .dict kcls nkvs := by
-      cases cur <;> simp [createIn] at hcreate
-      exact ⟨_, _, rfl⟩
-    exact C03_create_partial cls kvs q kcls nkvs (.elem n e) steps v cur' t' fuel hp hget hfirst (by intro e h; cases h)
-      hsteps hg hcreate hset hf
+    setItem fuel (.dict cls kvs) (slash ++ renderPos q ++ (s :: steps).flatMap renderCStep) v = (t', .ok ()) :=
+  setItem_create_any cls kvs q cur cur' s steps v t' fuel hp hget hfirst hsteps hg hcreate hset hencl hf
 
 /-- the added hypothesis is needed: the unhypothesised statement is refuted by the witness of C03-c -/
 theorem C03_create_stmt_false : ¬ C03_create_stmt := by
@@ -493,24 +478,26 @@ theorem C03_history_root (cls : Cls) (kvs : List (Str × Val)) (op : Hist.Op) (t
     ∃ kvs', t' = .dict cls kvs' :=
   Hist.applyOp_dict_root cls kvs op t' hv ha
 
-/-! Non-vacuity: a history with all five kinds of call on `exTree2`
+/-! Non-vacuity: a history with all kinds of call on `exTree2`
 (`{a: {l: [1], k: 's'}}`):
 1. `d['//a/n/m[new()]/x'] = 5` (creation: names, element, name),
 2. `d['//a/l[0]'] = 7` (C02 write),
 3. `d.delete('//a/n/m[0]/x', recursively=True)` (removes `x`, then the emptied dict `m[0]`; the list `m` stays),
 4. `d.pop('//a/k', 'D')` (returns `'s'`),
-5. `d['//a/k[new()]'] = 9` (creation on the name that has just been removed). -/
+5. `d['//a/k[new()]'] = 9` (creation on the name that has just been removed),
+6. `d['//a/l[new()]'] = 8` (bare `[new()]` first step below the list `l`). -/
 def exHistory : List Hist.Op :=
   [ .create [.key ['a']] (.name ['n']) [.elem ['m'] ['n', 'e', 'w', '(', ')'], .name ['x']] (.int 5),
     .write [.key ['a'], .key ['l'], .idx 0] (.int 7),
     .del [.key ['a'], .key ['n'], .key ['m'], .idx 0, .key ['x']] true,
     .pop [.key ['a'], .key ['k']] (.str ['D']) false,
-    .create [.key ['a']] (.elem ['k'] ['n', 'e', 'w', '(', ')']) [] (.int 9) ]
+    .create [.key ['a']] (.elem ['k'] ['n', 'e', 'w', '(', ')']) [] (.int 9),
+    .create [.key ['a'], .key ['l']] (.idx ['n', 'e', 'w', '(', ')']) [] (.int 8) ]
 
 theorem exHistory_valid : Hist.ValidOps exTree2 exHistory := by
   refine .cons (t' := .dict .n0 [(['a'], .dict .n0 [(['l'], .list .n0 [.int 1]), (['k'], .str ['s']),
       (['n'], .dict .n0 [(['m'], .list .n0 [.dict .n0 [(['x'], .int 5)]])])])]) ?_ (by decide) ?_
-  · refine ⟨⟨pk_a, trivial⟩, ⟨_, _, rfl⟩, pk_n, (by intro e h; cases h), ?_, by simp [GOk, CStep.isName]⟩
+  · refine ⟨⟨pk_a, trivial⟩, pk_n, ?_, by simp [GOk, CStep.isName], (by intro h; cases h)⟩
     intro x hx; simp at hx; rcases hx with rfl | rfl
     · exact ⟨pk_m, Or.inl (by decide)⟩
     · exact pk_x
@@ -524,24 +511,31 @@ theorem exHistory_valid : Hist.ValidOps exTree2 exHistory := by
       (['n'], .dict .n0 [(['m'], .list .n0 [])])])]) ?_ (by decide) ?_
   · exact ⟨⟨pk_a, pk_k, trivial⟩, by simp, _, rfl⟩
   refine .cons (t' := .dict .n0 [(['a'], .dict .n0 [(['l'], .list .n0 [.int 7]),
+      (['n'], .dict .n0 [(['m'], .list .n0 [])]), (['k'], .list .n0 [.int 9])])]) ?_ (by decide) ?_
+  · exact ⟨⟨pk_a, trivial⟩, pk_k, by simp, by simp [GOk], (by intro h; cases h)⟩
+  refine .cons (t' := .dict .n0 [(['a'], .dict .n0 [(['l'], .list .n0 [.int 7, .int 8]),
       (['n'], .dict .n0 [(['m'], .list .n0 [])]), (['k'], .list .n0 [.int 9])])]) ?_ (by decide) (.nil _)
-  · exact ⟨⟨pk_a, trivial⟩, ⟨_, _, rfl⟩, pk_k, (by intro e h; cases h), by simp, by simp [GOk]⟩
+  · refine ⟨⟨pk_a, pk_l, trivial⟩, trivial, by simp, by simp [GOk], ?_⟩
+    rintro _ ⟨q0, i, ys, hq, _⟩
+    have := (List.append_inj' (show [Seg.key ['a']] ++ [Seg.key ['l']] = q0 ++ [Seg.idx i] from hq) rfl).2
+    cases this
 
 /-- the model run of that history, evaluated: final tree and what the calls returned -/
 example : Hist.runOps 40 exTree2 exHistory
-    = (.dict .n0 [(['a'], .dict .n0 [(['l'], .list .n0 [.int 7]),
+    = (.dict .n0 [(['a'], .dict .n0 [(['l'], .list .n0 [.int 7, .int 8]),
         (['n'], .dict .n0 [(['m'], .list .n0 [])]), (['k'], .list .n0 [.int 9])])],
-       .ok [Option.none, Option.none, Option.none, some (.str ['s']), Option.none]) := by decide
+       .ok [Option.none, Option.none, Option.none, some (.str ['s']), Option.none, Option.none]) := by decide
 /-- … and the same through the theorem -/
 example : ∃ t' obs, Hist.applyOps exTree2 exHistory = some (t', obs) ∧
     Hist.runOps 40 exTree2 exHistory = (t', .ok obs) :=
   C03_history 40 exHistory .n0 _ exHistory_valid (by decide)
-/-- the path texts the five calls are made with -/
+/-- the path texts the six calls are made with -/
 example : exHistory.map Hist.opPath =
     [['/', '/', 'a', '/', 'n', '/', 'm', '[', 'n', 'e', 'w', '(', ')', ']', '/', 'x'],
      ['/', '/', 'a', '/', 'l', '[', '0', ']'],
      ['/', '/', 'a', '/', 'n', '/', 'm', '[', '0', ']', '/', 'x'],
      ['/', '/', 'a', '/', 'k'],
-     ['/', '/', 'a', '/', 'k', '[', 'n', 'e', 'w', '(', ')', ']']] := by decide
+     ['/', '/', 'a', '/', 'k', '[', 'n', 'e', 'w', '(', ')', ']'],
+     ['/', '/', 'a', '/', 'l', '[', 'n', 'e', 'w', '(', ')', ']']] := by decide
 
 end N0.C03
